@@ -77,7 +77,7 @@ def specs(tier='quick'):
   A(Spec('Histogram', lambda: rs.Histogram(range=(0, 1), bins=2), _r(False), lambda m: tuple(m.result().hist), ROLL))
   A(Spec('HistogramWeighted', lambda: rs.Histogram(range=(0, 3), bins=3),
          lambda c, i: (c.real(f'x{i}'), c.real(f'w{i}')), lambda m: tuple(m.result().hist), ROLL))
-  A(Spec('Counter', rs.Counter, lambda c, i: (c.int(f'x{i}', 0, 2),), lambda m: dict(m.result()), ROLL))
+  A(Spec('Counter', rs.Counter, lambda c, i: (c.int(f'x{i}', 0, 2),), lambda m: {int(k): v for k, v in m.result().items()}, ROLL))
   A(Spec('UnboundedSampler', rs.UnboundedSampler, _xy(), lambda m: m.result(), ROLL, order_insensitive=False))
   A(Spec('ValueAccumulator', rs.ValueAccumulator, _xy(), lambda m: tuple([v for b in col for v in b] for col in m.data), ROLL, order_insensitive=False,
          batch=lambda rows: tuple([x for x in col] for col in zip(*rows)),
@@ -125,16 +125,22 @@ def specs(tier='quick'):
   # ---- text frequency metrics: words are chosen by symbolic ints (concretised per path); structure only -------------
   from ml_metrics._src.aggregates import text as agg_text
   TXT = ('aggregates.text', 'aggregates.utils', 'utils.math_utils')
-  def text_row(lengths):
+  def text_row(lengths, vocab='abc'):
     def gen(c, i):
       L = lengths[i % len(lengths)]
-      return (' '.join('abc'[int(c.int(f'w{i}_{j}', 0, 2))] for j in range(L)),)
+      return (' '.join(vocab[int(c.int(f'w{i}_{j}', 0, len(vocab) - 1))] for j in range(L)),)
     return gen
   A(Spec('TopKWordNGrams_k1', lambda: agg_text.TopKWordNGrams(k=1, n=1), text_row((3, 2, 2)), lambda m: m.result(), TXT, max_comps=4,
          note='k=1: a truncation of the merged state to the top k is visible'))
   A(Spec('TopKWordNGrams_k2_bigrams', lambda: agg_text.TopKWordNGrams(k=2, n=2, count_duplicate=False), text_row((3, 2, 2)),
          lambda m: m.result(), TXT, max_comps=4))
   A(Spec('PatternFrequency', lambda: agg_text.PatternFrequency(patterns=('a', 'ab')), text_row((2, 2, 2)), lambda m: m.result(), TXT))
+  if tier == 'laws':   # smaller text inputs for the algebraic-law check (C11): up to 4 texts are involved there
+    for sp in S:
+      if sp.name == 'TopKWordNGrams_k1':
+        sp.gen = text_row((2, 2, 1), 'ab')
+      if sp.name == 'PatternFrequency':
+        sp.gen = text_row((2, 2, 2), 'ab')
   return S
 
 
